@@ -19,7 +19,7 @@ RULE = ("random scenario = two stub source repositories + an installed set (pack
         "distfiles, stale versions, installed versions that left the tree) + a scratch distdir (needed, stale, unrelated and "
         "look-alike files; sizes around the --size limit incl. sparse MiB files; mtimes around the --modified threshold; a "
         "sub-directory and a sibling directory) + a random `pclean dist` command line (0-2 targets cat/pn | pn | =cat/pn-ver | "
-        "cat/*, -I, -E, -f, -x/-X exclusion patterns, -m, -s, -p, stdout a tty or not). The REAL pclean.argparser parses the "
+        "cat/*, -I, -E, -f, -x/-X exclusion patterns, -m, -s, -p, -q/-v, stdout a tty or not). The REAL pclean.argparser parses the "
         "command line against a stub domain (distdir, source_repos, all_installed_repos), which runs _setup_shared_opts, "
         "_setup_file_opts, _setup_restrictions and _dist_validate_args; then the real _remove(options, out, err) runs. The "
         "distdir is listed before and after. One evaluation = one executed command line judged on every removed file "
@@ -246,6 +246,8 @@ def evaluate(ctx, scn, root, origin="random"):
         ctx.count("pretend_runs")
     if not o["tty"]:
         ctx.count("no_tty_runs")
+    if o.get("verbosity"):
+        ctx.count("verbosity:%+d" % o["verbosity"])
     if obs["sub_removed"]:
         viol.append(("removed-outside-distdir", {"rule": "subdirectory", "files": obs["sub_removed"]}))
     for why in facts["unspecified"]:
@@ -274,7 +276,7 @@ def evaluate(ctx, scn, root, origin="random"):
 
 def run(ctx):
     root = pjoin(os.environ.get("VT_SCRATCH") or "/var/tmp", "c46-run-%d" % os.getpid())
-    n = ctx.budget(400, 2500)
+    n = ctx.budget(300, 2500)
     for i in range(n):
         scn = gen.scenario(ctx.rng)
         evaluate(ctx, scn, root)
